@@ -89,6 +89,15 @@ CHECKS = {
         "Trusted: CrossHair, z3, the skeleton and fold oracles (vf/blocks.py, vf/props/c04.py).",
         "DESIGN.md 3/C04",
     ),
+    "C03": (
+        "model_checking",
+        "CrossHair (z3): inductive access / anonymous-id step on the real parser with a symbolic access string and symbolic anon_id from a class head parsed through the public API; exhaustive CrossHair exploration of method-qualifier subsets, constructor/destructor names and contexts, base-clause orders and member sequences against independently built dataclasses",
+        "Inductive step: for each of 7 class heads (class keys, bases, template, nesting depth 1-3) x 30 member forms, for ALL access strings (<=9 chars) and ALL anon_id values, every emitted object carries exactly the pre-state access, "
+        "a specifier sets it, nested classes use their own default and return to the same outer state object, anonymous types take anon_id+1 shared by all their declarators, and the outer classes continue with their own access - "
+        "one step from an arbitrary state covers member sequences of any length. The enumerated harnesses are exhaustive inside their grammars.",
+        "Bound: the member / head tables in vf/props/c03.py; sequences <=3 (quick) / 4 (thorough) as cross-check. Lexing in the inductive step is a token replay (stub lexer). Trusted: CrossHair, z3, the expected-object builders.",
+        "DESIGN.md 3/C03",
+    ),
 }
 
 NOT_YET = "no check landed yet in this build (planned engine and bounds: DESIGN.md section 3); not claimed until the check runs green"
